@@ -1397,7 +1397,9 @@ impl Checker {
             }
         };
 
-        let resolved_path = working_dir.join(path);
+        // Normalized so that a file is recognised again when it is reached
+        // through another spelling, e.g. from a different directory.
+        let resolved_path = crate::path::normalize(working_dir.join(path));
 
         // Check the cache first
         if let Some(cached) = self.shape_cache.borrow().get(&resolved_path) {
